@@ -39,7 +39,7 @@ EXTRA = [
 
 
 def cases(tier):
-    cs = C02.cases(tier) + EXTRA
+    cs = [c for c in C02.cases(tier) if c.get('kind') != 'crosshair'] + EXTRA
     out = []
     for i in range(0, len(cs), 25):
         out.append({"name": "ops/%d" % i, "c02": cs[i:i + 25]})
